@@ -169,10 +169,10 @@ func C01(p *ir.Program, r *report.R) {
 			top := ir.FuncName(ir.EnclosingTop(s.Fn))
 			switch top {
 			case csT + "enterPrecommit":
-				c.Guards(top, "write "+f, s.Instr, G{"polka", polkaOK})
+				c.GuardsS(top, "write "+f, s, G{"polka", polkaOK})
 				if f == "LockedBlock" && ir.Render(s.Val) != "nil" {
 					r.Check("K1", top+"/lock/value", p.InstrPos(s.Instr), ir.Render(s.Val) == "cs.RoundState.ProposalBlock", "the only block that may be locked is ProposalBlock: "+ir.Render(s.Val))
-					c.Guards(top, "lock", s.Instr,
+					c.GuardsS(top, "lock", s,
 						G{"polka-not-nil", "!*BlockID.IsZero(" + polkaID + ")"},
 						G{"proposal-is-polka-block", "*Block.HashesTo(cs.RoundState.ProposalBlock,*Hash.Bytes(" + polkaID + ".Hash))"})
 				}
@@ -182,7 +182,7 @@ func C01(p *ir.Program, r *report.R) {
 			case csT + "addVote":
 				r.Check("K1", top+"/unlock/value "+f, p.InstrPos(s.Instr), ir.Render(s.Val) == "nil" || ir.Render(s.Val) == "0", "addVote may only clear the lock: "+ir.Render(s.Val))
 				pv := "*VoteSet.TwoThirdsMajority(*HeightVoteSet.Prevotes(cs.RoundState.Votes,vote.Round))"
-				c.Guards(top, "unlock "+f, s.Instr,
+				c.GuardsS(top, "unlock "+f, s,
 					G{"polka", pv + "#1"},
 					G{"locked", "!eq(cs.RoundState.LockedBlock,nil)"},
 					G{"later-round", "lt(cs.RoundState.LockedRound,vote.Round)"},
@@ -240,7 +240,7 @@ func C01(p *ir.Program, r *report.R) {
 		ec := p.Func("consensus", "ConsensusState.enterCommit")
 		for _, s := range p.Stores(p.Field("consensus/types", "RoundState.ProposalBlock")) {
 			if s.Fn == ec {
-				c.Guards(csT+"enterCommit", "write ProposalBlock", s.Instr,
+				c.GuardsS(csT+"enterCommit", "write ProposalBlock", s,
 					G{"+2/3-precommits", "*VoteSet.TwoThirdsMajority(*HeightVoteSet.Precommits(cs.RoundState.Votes,commitRound))#1"})
 			}
 		}
